@@ -26,7 +26,7 @@ DYNAMIC == 2
 RECURSIVE OpsOf(_, _), OpsOfKids(_, _, _)
 OpsOfKids(cs, o, i) ==
   IF i > Len(cs) THEN <<>>
-  ELSE (CASE cs[i].k \in {"expr", "spread"} /\ cs[i].e.k = "ident" /\ cs[i].e.bound -> <<[op |-> "fill"]>>
+  ELSE (CASE cs[i].k \in {"expr", "spread"} /\ Peel(cs[i].e).k = "ident" /\ Peel(cs[i].e).bound -> <<[op |-> "fill"]>>
           [] cs[i].k = "elem" -> OpsOf(cs[i].el, o)
           [] OTHER -> <<>>) \o OpsOfKids(cs, o, i + 1)
 OpsOf(el, o) ==
